@@ -44,19 +44,13 @@ def run(ck, models, tier):
             for v in tm.variants(p):
                 cw = classify_writes(v, func)
                 if tm.arch == "arm":
-                    # Thumb: the entry is the pointer with bit 0 cleared; the class-abstracted runs of C16 check the exact address
-                    cw2 = []
-                    for ev, role, dst, real, alias in cw:
-                        if role == "other":
-                            e = dst.e
-                            if e.op == "gamma" and any(same_expr(x, func.e) for x in e.args[1:]) and any(
-                                    x.op == "sub" and same_expr(x.args[0], func.e) and x.args[1].is_const() and x.args[1].val == 1 for x in e.args[1:]):
-                                role = "entry"
-                        cw2.append((ev, role, dst, real, alias))
-                    cw = cw2
+                    # the entry is the pointer with the Thumb bit cleared; decided per entry class below (exact bits)
+                    cw = [(ev, "entry-arm", dst, real, alias) for ev, role, dst, real, alias in cw]
                 for ev, role, dst, real, alias in cw:
                     n_writes += 1
                     covered_sites.add((fn_of_event(ev), ev.where()))
+                    if role == "entry-arm":
+                        continue
                     ck.ob("R3.3", "%s/destination/%s" % (rn, role if role != "other" else "UNDESIGNATED"), tm.target, role in ("entry", "trampoline"),
                           "code write of %s byte(s) to %s is classified as '%s'%s" % (
                               fmt(ev.extra["count"].e), fmt(dst.e, 4), role,
@@ -74,11 +68,29 @@ def run(ck, models, tier):
                               "raw memory write %s outside the allow-list" % ev, where(ev))
                     if ev.kind == "raw_read":
                         covered_sites.add((fn_of_event(ev), ev.where()))
+                if tm.arch == "arm":
+                    for ev, role, dst, real, alias in cw:
+                        sl = ev.extra.get("src_len")
+                        cnt = ev.extra["count"]
+                        ck.ob("R3.2", "%s/copy-exact" % rn, tm.target, sl is not None and same_expr(sl.e, cnt.e),
+                              "copy count %s vs length of the source slice %s" % (fmt(cnt.e), fmt(sl.e) if sl is not None else "unknown"), where(ev))
+                        ck.ob("R3.4", "%s/entry-length" % rn, tm.target, cnt.is_const() and cnt.cval() <= 16, "entry write length %s (limit 16)" % fmt(cnt.e), where(ev))
                 if v.status == "returned":
                     na = len(alloc_events(v))
                     want = 0 if tm.arch == "arm" else 1
                     ck.ob("R3.6", "%s/one-mapping-per-install" % rn, tm.target, na == want,
                           "normal path performs %d allocation(s) (expected %d)" % (na, want))
+        if tm.arch == "arm":
+            for p, func, repl, boolval in roots:
+                for cls in ARM_CLASSES:
+                    for v in arm_class_variants(tm, p, cls):
+                        for ev in code_writes(v):
+                            db = ev.extra["dst"].get_bits()
+                            low = cls[1]
+                            okaddr = db[0] == 0 and all(db[k] == low[k] for k in range(1, len(low))) and all(
+                                isinstance(db[k], E) and db[k].op == "bit" and db[k].args[1] == k and same_expr(db[k].args[0], func.e) for k in range(len(low), len(db)))
+                            ck.ob("R3.3", "%s/%s/destination/%s" % (short(p), cls[0], "entry" if okaddr else "UNDESIGNATED"), tm.target, okaddr,
+                                  "class %s: code write targets %s the faked function's pointer with bit 0 cleared" % (cls[0], "exactly" if okaddr else "something other than"), where(ev))
         if g.drop_fn:
             for v in tm.variants(g.drop_fn):
                 for ev in code_writes(v):
